@@ -242,13 +242,14 @@ def _factor_long_intermediate(expr: e.Expr, itmd: list[EriOrbenergy],
                     variant_data['sub'].get(s, s)
                     for s in itmd_contracted_symbols
                 )
+                # a contracted itmd index must neither appear in the
+                # remainder nor be a target index of the term
+                # -> the variant is not valid
                 remainder_indices = set(remainder.idx)
+                remainder_indices.update(term.eri.target)
                 if any(s in remainder_indices
                        for s in contracted_itmd_indices):
-                    raise RuntimeError("Invalid contracted itmd indices "
-                                       f"{contracted_itmd_indices} found "
-                                       "that also appear in the remainder:\n"
-                                       f"{remainder}")
+                    continue
 
                 # - minimize the indices of the intermediate to ensure that
                 #   the same indices are used in each term of the long itmd
@@ -431,6 +432,20 @@ def _factor_short_intermediate(expr: e.Expr, itmd: EriOrbenergy,
 
         # compare the term and the itmd term
         variants = _compare_terms(term, itmd, data, itmd_data)
+
+        if variants is not None:
+            # a contracted itmd index must neither appear in the remainder
+            # nor be a target index of the term -> remove invalid variants
+            valid_variants = []
+            for var in variants:
+                forbidden = set(
+                    _get_remainder(term, var['eri_i'], var['denom_i']).idx
+                )
+                forbidden.update(term.eri.target)
+                if not any(var['sub'].get(s, s) in forbidden
+                           for s in itmd_contracted_symbols):
+                    valid_variants.append(var)
+            variants = valid_variants if valid_variants else None
 
         if variants is None:
             factored += term.expr
